@@ -42,15 +42,22 @@ Fixpoint find_idx {A} (p : A -> bool) (l : list A) (i : nat) : option nat :=
   end.
 
 (* ---------- registers *)
-Record regdef := { r_ident : str; r_digits : nat; r_fields : list field; r_delim : option str }.
+(* r_pat: the identifier as a regular expression when it is not a plain literal (reading only: a register that is written
+   carries the literal r_ident in its identifier columns) *)
+Record regdef := { r_ident : str; r_digits : nat; r_fields : list field; r_delim : option str; r_pat : option re }.
 
 Definition ident_field (r : regdef) : field := {| kind := KLit; size := r_digits r; start := 0 |}.
 Definition composite (r : regdef) : list field := ident_field r :: r_fields r.
 (* Line.size of the composite line: sum of the field sizes *)
 Definition composite_size (r : regdef) : nat := fold_right (fun f a => size f + a) 0 (composite r).
 
-(* Register.matches for a metacharacter-free identifier: substring search in the leading window *)
-Definition reg_matches (r : regdef) (line : str) : bool := contains (r_ident r) (firstn (r_digits r) line).
+(* Register.matches: re.search(IDENTIFIER, line[:IDENTIFIER_DIGITS]); for a metacharacter-free identifier that is
+   substring search in the leading window (Proofs/ReProofs.v: re_search_lit) *)
+Definition reg_matches (r : regdef) (line : str) : bool :=
+  match r_pat r with
+  | None => contains (r_ident r) (firstn (r_digits r) line)
+  | Some p => re_search p (firstn (r_digits r) line)
+  end.
 
 (* bytes requested by Register.read in binary storage: repaired = the composite line width;
    as found = IDENTIFIER_DIGITS more *)
@@ -81,7 +88,7 @@ Definition reg_peek (sto : storage) (linesize : nat) (s : str) : str :=
 Definition reg_dispatch (rs : list regdef) (p : str) : option nat := find_idx (fun r => reg_matches r p) rs 0.
 
 Definition nth_reg (rs : list regdef) (i : nat) : regdef :=
-  nth i rs {| r_ident := []; r_digits := 0; r_fields := []; r_delim := None |}.
+  nth i rs {| r_ident := []; r_digits := 0; r_fields := []; r_delim := None; r_pat := None |}.
 
 Definition read_regfile (fixed_req fixed_def : bool) (sto : storage) (linesize : nat) (rs : list regdef) (fuel : nat) (s : str)
   : option (list (option nat * str)) :=
